@@ -63,8 +63,26 @@ def add_child_contract(c, typed, pos_fn=None, target_fn=None, kind_fn=None, has_
     if typed:
         c.requires("kind is a str or None", lambda x: And(L.v_is_str(x.a.kind), x.a.kind != ANY_KIND) if (x.a.has("kind") and x.a.tag("kind") != "none") else True)
 
+    def is_node_child(x):
+        return x.a.tag("child") == "ref"
+
+    def data_of(x):
+        """data object of the new node: the argument itself, or -- for a node argument -- the *same*
+        data object as the source node (C07)."""
+        return x.h0._data(x.a.child) if is_node_child(x) else x.a.child
+
     def did(x):
+        if is_node_child(x):
+            return x.h0._data_id(x.a.child)  # C07: a copy is filed under its source's data_id
         return x.a.data_id if x.a.tag("data_id") != "none" else calc_id(x.h0, x.T, x.a.child)
+
+    def id_conflict(x):
+        """an explicit data_id that differs from the source node's is refused (uniqueness error)"""
+        if is_node_child(x) and x.a.tag("data_id") != "none":
+            return And(L.v_truthy(x.a.data_id), Not(L.v_eq(x.a.data_id, x.h0._data_id(x.a.child))))
+        return z3.BoolVal(False)
+
+    c.requires("a node argument is a member of a well-formed tree", lambda x: And(wf(x.h0, x.h0._tree(x.a.child)), x.h0.mem(x.h0._tree(x.a.child), x.a.child)) if x.a.has("child") and is_node_child(x) else True)
 
     def clash(x):
         h0, s = x.h0, target_fn(x, x.h0)
@@ -81,7 +99,7 @@ def add_child_contract(c, typed, pos_fn=None, target_fn=None, kind_fn=None, has_
         return Or(Not(L.v_truthy(x.a.node_id)), x.h0.ddom(x.h0._node_by_id(x.T), x.a.node_id))
 
     c.raises("ValueError", when=bad_before, ensures=lambda x: And(obs_unchanged(x), wf1(x)), props=("C13", "C04"))
-    c.raises("UniqueConstraintError", when=lambda x: And(Not(bad_before(x)), Not(bad_nid(x)), clash(x)), ensures=lambda x: And(obs_unchanged_but_fresh(x), wf1(x)), props=("C03", "C13"))
+    c.raises("UniqueConstraintError", when=lambda x: And(Not(bad_before(x)), Not(bad_nid(x)), Or(clash(x), id_conflict(x))), ensures=lambda x: And(obs_unchanged_but_fresh(x), wf1(x)), props=("C03", "C13"))
     c.may_raise("AssertionError", ensures=lambda x: And(obs_unchanged_but_fresh(x), wf1(x)), props=("C13",), name="node_id refused")
     c.may_raise("Exception", ensures=lambda x: And(obs_unchanged_but_fresh(x), wf1(x)), props=("C13",), name="calc_data_id callback raises")
 
@@ -94,7 +112,7 @@ def add_child_contract(c, typed, pos_fn=None, target_fn=None, kind_fn=None, has_
             wf1(x),
             n != NONE, Not(h0.alloc(n)), h.mem(T, n),
             inserted(h0, h, s, idx, n),
-            h._data(n) == x.a.child, h._data_id(n) == did(x), h._parent(n) == s, h._tree(n) == T, h._children(n) == LNONE, h._meta(n) == DNONE,
+            h._data(n) == data_of(x), h._data_id(n) == did(x), h._parent(n) == s, h._tree(n) == T, h._children(n) == LNONE, h._meta(n) == DNONE,
             other_childlists_same(x, T, s),
             fields_same_except(x, tuple(f for f in NODE_FIELDS if f != "_children") + TREE_FIELDS, [n]),
             ForAll([o], Implies(And(o != s, o != n), h._children(o) == h0._children(o)), patterns=[h._children(o)]),
@@ -105,7 +123,7 @@ def add_child_contract(c, typed, pos_fn=None, target_fn=None, kind_fn=None, has_
             cs.append(h._kind(n) == (kind_fn(x) if kind_fn else (x.a.kind if (x.a.has("kind") and x.a.tag("kind") != "none") else str_const("child"))))
         return And(*cs)
 
-    c.ensures("new node at the documented position; wf; nothing else changed", post, props=("C01", "C02", "C03", "C04"))
+    c.ensures("new node at the documented position, same data object / data_id as a source node; wf; nothing else changed (source untouched)", post, props=("C01", "C02", "C03", "C04", "C07"))
     # ghost: sibling positions behind the insertion point shift up
     c.ghost_exit["pos"] = lambda x, o: If(o == x.r, pos_fn(x, x.h0), If(And(x.h0._parent(o) == target_fn(x, x.h0), x.h0.mem(x.T, o), x.h0.pos(o) >= pos_fn(x, x.h0)), x.h0.pos(o) + 1, x.h0.pos(o)))
 
@@ -127,9 +145,9 @@ def obs_unchanged_but_fresh(x):
     return And(*cs)
 
 
-@contract(NQ + "add_child", props=("C01", "C02", "C03", "C04", "C13"))
+@contract(NQ + "add_child", props=("C01", "C02", "C03", "C04", "C07", "C13"))
 def _(c):
-    c.param("self", "node").param("child", "data").param("before", "none", "bool", "int", "node").param("deep", "none").param("data_id", "none", "id").param("node_id", "none", "id")
+    c.param("self", "node").param("child", "data", "node").param("before", "none", "bool", "int", "node").param("deep", "none", "false").param("data_id", "none", "id").param("node_id", "none", "id")
     c.families = ("plain",)
     add_child_contract(c, typed=False)
 
